@@ -13,6 +13,7 @@ a share of the tuples is additionally spelled with literal arguments.
 import itertools
 import json
 import os
+import re
 from decimal import Decimal as D
 
 import runner
@@ -525,69 +526,99 @@ def random_pattern(rng, depth=0):
 
 def gen_matrix(tier, rng):
     """Every function x every arity 0..4 x diverse (mostly wrongly typed) arguments."""
-    T = []
     for spec in rbif.SPECS:
-        T.append((spec.name, [], "arity0"))
+        yield (spec.name, [], "arity0")
         for a in DIVERSE:
-            T.append((spec.name, [a], "arity1"))
+            yield (spec.name, [a], "arity1")
         for a in DIVERSE:
             for b in DIVERSE:
-                T.append((spec.name, [a, b], "arity2"))
+                yield (spec.name, [a, b], "arity2")
         for combo in itertools.product(DIVERSE, repeat=3):
-            T.append((spec.name, list(combo), "arity3"))
+            yield (spec.name, list(combo), "arity3")
         if tier == "thorough":
             for combo in itertools.product(DIVERSE, repeat=4):
-                T.append((spec.name, list(combo), "arity4"))
+                yield (spec.name, list(combo), "arity4")
         else:
             for _ in range(1200):
-                T.append((spec.name, [rng.choice(DIVERSE) for _ in range(4)], "arity4"))
+                yield (spec.name, [rng.choice(DIVERSE) for _ in range(4)], "arity4")
         # well-typed first argument, everything else diverse: reaches the checks behind the first one
         first = {"string": "abc", "list": [n(1), n(2), n(3)], "context": Ctx([("a", n(1))]), "boolean": True, "any": n(1)}[spec.params[0][1]]
         for b in DIVERSE:
-            T.append((spec.name, [first, b], "arity2-typed"))
+            yield (spec.name, [first, b], "arity2-typed")
             for c in DIVERSE[:: (1 if tier == "thorough" else 3)]:
-                T.append((spec.name, [first, b, c], "arity3-typed"))
-    return T
+                yield (spec.name, [first, b, c], "arity3-typed")
 
 
 # ------------------------------------------------------------------------------------------------
 # run
 # ------------------------------------------------------------------------------------------------
 BATCH = 300
+SEGMENT = 120000  # argument tuples generated, executed and judged at a time (bounds memory in the thorough tier)
 
 
-def build_calls(tuples, tier):
+def build_calls(tuples, tier, base):
     """Expands tuples into texts. Returns (calls, interner); call = dict(t=tuple index, form, text, ...)."""
     interner = Interner()
     calls = []
-    for ti, (fname, args, origin) in enumerate(tuples):
+    for local, (fname, args, origin) in enumerate(tuples):
+        ti = base + local  # global index: drives every deterministic choice below
         spec = rbif.BY_NAME[fname]
         names = [interner.name(a) for a in args]
-        calls.append({"t": ti, "form": "positional", "text": "%s(%s)" % (fname, ", ".join(names)), "uses": names})
+        calls.append({"t": local, "form": "positional", "text": "%s(%s)" % (fname, ", ".join(names)), "uses": names})
         lits = None
         if (ti % 4 == 0) or origin.startswith("sweep"):
             lits = [literal(a) for a in args]
             if any(x is None for x in lits):
                 lits = None
         if lits is not None and ((ti % 4 == 0) or (ti % 3 == 0)):
-            calls.append({"t": ti, "form": "literal", "text": "%s(%s)" % (fname, ", ".join(lits)), "uses": []})
+            calls.append({"t": local, "form": "literal", "text": "%s(%s)" % (fname, ", ".join(lits)), "uses": []})
         if named_applicable(spec, args) and len(args) > 0:
             pn = param_names(spec, len(args))
-            for oi, order in enumerate(orders_for(len(args), tier, ti)):
+            for order in orders_for(len(args), tier, ti):
                 text = "%s(%s)" % (fname, ", ".join("%s: %s" % (pn[k], names[k]) for k in order))
-                calls.append({"t": ti, "form": "named", "order": order, "text": text, "uses": names})
+                calls.append({"t": local, "form": "named", "order": order, "text": text, "uses": names})
             if lits is not None and ti % 8 == 0:
                 text = "%s(%s)" % (fname, ", ".join("%s: %s" % (pn[k], lits[k]) for k in range(len(args))))
-                calls.append({"t": ti, "form": "named-literal", "text": text, "uses": []})
+                calls.append({"t": local, "form": "named-literal", "text": text, "uses": []})
             if fname == "list contains" and len(args) == 2:
-                calls.append({"t": ti, "form": "named-spec-name", "text": "list contains(list: %s, element: %s)" % (names[0], names[1]), "uses": names})
+                calls.append({"t": local, "form": "named-spec-name", "text": "list contains(list: %s, element: %s)" % (names[0], names[1]), "uses": names})
             # a required parameter left out: the named form of a wrong arity
             lo, _ = spec.arities()
             if len(args) == lo and lo >= 2 and ti % 5 == 0:
                 drop = ti % lo
                 text = "%s(%s)" % (fname, ", ".join("%s: %s" % (pn[k], names[k]) for k in range(len(args)) if k != drop))
-                calls.append({"t": ti, "form": "named-missing", "text": text, "uses": names})
+                calls.append({"t": local, "form": "named-missing", "text": text, "uses": names})
     return calls, interner
+
+
+def _segments(iterable, size):
+    seg = []
+    for item in iterable:
+        seg.append(item)
+        if len(seg) >= size:
+            yield seg
+            seg = []
+    if seg:
+        yield seg
+
+
+class Acc:
+    """Counters accumulated over the segments of one run."""
+
+    def __init__(self):
+        self.per_fn = {}
+        self.undecided_fn = {}
+        self.named_pairs_fn = {}
+        self.forms = {}
+        self.origins = {}
+        self.decided_calls = 0
+        self.named_pairs = 0
+        self.tuples = 0
+        self.batches = 0
+        self.null_classes = set()
+        self.sampled = set()
+        self.asan_same = 0
+        self.asan_batches = 0
 
 
 def run(rep, tier, seed):
@@ -596,61 +627,89 @@ def run(rep, tier, seed):
         "argument classes): null / bool / sign+{int,int.0,frac,huge} / string plane {empty,ascii,bmp,astral}+edge whitespace / "
         "list element kinds+null+single+dup / context / opaque kind; for substring, sublist, insert before, remove the position "
         "and length arguments are classed relative to the subject length L ({zero,below1,edge,in,L+1,beyond} x {int,int.0,frac}). "
-        "A key is counted when at least one call of the class was decided by the reference (undecided calls are not counted)."
+        "A key is non-trivial (counted in distinct_nontrivial) when at least one call of the class was decided by the reference "
+        "with a result other than plain null; classes whose decided result is always null (wrong types, wrong arity, out of "
+        "range) are counted separately in classes_with_null_reference; undecided calls are counted nowhere."
     )
     rep.assumptions = [
         "R-BIF (lib/rbif.py) is my reading of DMN 1.3 section 10.3.4: positions in code points from 1, negative from the end, null outside the domain, wrong arity -> null",
-        "where the specification text supports two readings (implicit to/from singleton-list conversion of an argument, explicit null for an optional parameter, non-integer length inside [1..E], `.` kept when the decimal separator is `,`, non-Boolean items in all()) both results are accepted",
+        "where the specification text supports two readings (implicit to/from singleton-list conversion of an argument, explicit null for an optional parameter, non-integer length, `.` kept when the decimal separator is `,`, non-Boolean items in all()) both results are accepted",
         "regex functions are decided only on the subset on which XPath/XSD, Rust `regex` and Python `re` agree (validated by a recursive-descent parser in rbif._Rx); everything else is undecided",
         "sum/mean/median are compared within 2 ulp of the exact result, stddev within 1e-31*max|x| + 10 ulp (two-pass decimal128 evaluation)",
         "string(number) is accepted when it is a plain numeric literal denoting exactly the number; string() of lists, contexts, temporal values is undecided",
         "values are bound to scope names programmatically; named invocations use the parameter names of DMN 1.3 tables 72-76 (= named.rs, except `list contains`, see IMPL_PARAM_NAMES)",
     ]
     rng = rng_for(seed, "c08")
-    tuples = gen_focus(tier, rng) + gen_matrix(tier, rng)
-    calls, interner = build_calls(tuples, tier)
-    # ---- batches: one scope per batch holding only the values the batch uses
-    cases = []
-    spans = []
-    for lo in range(0, len(calls), BATCH):
-        chunk = calls[lo : lo + BATCH]
-        used = sorted({u for c in chunk for u in c["uses"]}, key=lambda s: int(s[1:]))
-        scope = [[[u, interner.values[int(u[1:])]] for u in used]]
-        cases.append({"op": "evalmany", "scope": scope, "texts": [c["text"] for c in chunk]})
-        spans.append((lo, len(chunk)))
-    results, meta = runner.run_cases("dbg", cases, rep.workdir, label="bifs", case_timeout=60.0)
-    judge(rep, tuples, calls, cases, spans, results, interner, "dbg")
+    acc = Acc()
+    base = 0
+    stream = itertools.chain(gen_focus(tier, rng), gen_matrix(tier, rng))
+    for tuples in _segments(stream, SEGMENT):
+        calls, interner = build_calls(tuples, tier, base)
+        base += len(tuples)
+        # ---- batches: one scope per batch holding only the values the batch uses
+        cases = []
+        spans = []
+        for lo in range(0, len(calls), BATCH):
+            chunk = calls[lo : lo + BATCH]
+            used = sorted({u for c in chunk for u in c["uses"]}, key=lambda s: int(s[1:]))
+            scope = [[[u, interner.values[int(u[1:])]] for u in used]]
+            cases.append({"op": "evalmany", "scope": scope, "texts": [c["text"] for c in chunk]})
+            spans.append((lo, len(chunk)))
+        results, _ = runner.run_cases("dbg", cases, rep.workdir, label="bifs", case_timeout=60.0)
+        judge(rep, acc, tuples, calls, cases, spans, results, interner, "dbg")
+        if tier == "thorough":
+            replay_on_asan(rep, acc, cases, results)
+        del calls, cases, results
+    rep.extra["calls_per_function"] = dict(sorted(acc.per_fn.items()))
+    rep.extra["undecided_per_function"] = dict(sorted(acc.undecided_fn.items()))
+    rep.extra["named_vs_positional_pairs"] = acc.named_pairs
+    rep.extra["named_vs_positional_pairs_per_function"] = dict(sorted(acc.named_pairs_fn.items()))
+    rep.extra["decided_calls"] = acc.decided_calls
+    rep.extra["calls_by_form"] = dict(sorted(acc.forms.items()))
+    rep.extra["calls_by_origin"] = dict(sorted(acc.origins.items()))
+    rep.extra["argument_tuples"] = acc.tuples
+    rep.extra["functions"] = len(rbif.SPECS)
+    rep.extra["classes_with_null_reference"] = len(acc.null_classes - rep.distinct)
+    rep.extra["batches"] = acc.batches
     if tier == "thorough":
-        # 10 % of the batches again on the ASan build: same values, no sanitizer report
-        step = 10
-        idx = list(range(0, len(cases), step))
-        a_results, a_meta = runner.run_cases("asan", [cases[k] for k in idx], rep.workdir, label="bifs", case_timeout=240.0)
-        n_same = 0
-        for k, ar in zip(idx, a_results):
-            _harness_ok(ar)
-            if "rs" not in ar:
-                rep.violation(crash_signature(ar, "c08-batch-asan"), "ASan build died in a batch: %s" % json.dumps(ar)[:600], {"variant": "asan", "case": cases[k]})
-                continue
-            dr = results[k]
-            if "rs" not in dr:
-                continue
-            for j, (x, y) in enumerate(zip(dr["rs"], ar["rs"])):
-                if x.get("v", x.get("panic", {}).get("msg")) != y.get("v", y.get("panic", {}).get("msg")):
-                    rep.violation("asan-differs-from-dbg", "text %r: dbg %s, asan %s" % (cases[k]["texts"][j], json.dumps(x)[:200], json.dumps(y)[:200]), {"variant": "asan", "case": {"op": "evalmany", "scope": cases[k]["scope"], "texts": [cases[k]["texts"][j]]}})
-                else:
-                    n_same += 1
-        for text in a_meta.get("sanitizer_reports", []):
-            rep.violation("asan-report", text[-1500:], None)
-        rep.extra["asan_replayed_calls"] = n_same
+        rep.extra["asan_replayed_calls"] = acc.asan_same
+        rep.extra["asan_replayed_batches"] = acc.asan_batches
     # ---- observation floor
-    per_fn = rep.extra.get("calls_per_function", {})
-    decided = rep.extra.get("decided_calls", 0)
-    pairs = rep.extra.get("named_vs_positional_pairs", 0)
-    missing = [s.name for s in rbif.SPECS if per_fn.get(s.name, 0) < 200]
+    missing = [s.name for s in rbif.SPECS if acc.per_fn.get(s.name, 0) < 200]
     if missing:
         rep.inconclusive_reason("fewer than 200 calls observed for: %s" % ", ".join(missing))
-    if decided < 30000 or pairs < 5000:
-        rep.inconclusive_reason("too few observations (decided calls=%d, named/positional pairs=%d)" % (decided, pairs))
+    if acc.decided_calls < 30000 or acc.named_pairs < 5000:
+        rep.inconclusive_reason("too few observations (decided calls=%d, named/positional pairs=%d)" % (acc.decided_calls, acc.named_pairs))
+    if tier == "thorough" and acc.asan_same < 10000:
+        rep.inconclusive_reason("too few calls replayed on the ASan build (%d)" % acc.asan_same)
+
+
+def replay_on_asan(rep, acc, cases, results):
+    """10 % of the batches again on the ASan build: same values, no sanitizer report."""
+    idx = list(range(acc.batches % 10, len(cases), 10))
+    if not idx:
+        return
+    a_results, a_meta = runner.run_cases("asan", [cases[k] for k in idx], rep.workdir, label="bifs", case_timeout=300.0)
+    for k, ar in zip(idx, a_results):
+        _harness_ok(ar)
+        if "rs" not in ar:
+            if "timeout" in ar:
+                rep.inconclusive_reason("an ASan batch made no progress for 300 s")
+            else:
+                rep.violation(crash_signature(ar, "c08-batch-asan"), "ASan build died in a batch: %s" % json.dumps(ar)[:1500], {"variant": "asan", "case": cases[k]})
+            continue
+        dr = results[k]
+        if "rs" not in dr:
+            continue
+        acc.asan_batches += 1
+        for j, (x, y) in enumerate(zip(dr["rs"], ar["rs"])):
+            if x.get("v", x.get("panic", {}).get("msg")) != y.get("v", y.get("panic", {}).get("msg")):
+                one = {"op": "evalmany", "scope": cases[k]["scope"], "texts": [cases[k]["texts"][j]]}
+                rep.violation("asan-differs-from-dbg", "text %r: dbg %s, asan %s" % (cases[k]["texts"][j], json.dumps(x)[:200], json.dumps(y)[:200]), {"variant": "asan", "case": one})
+            else:
+                acc.asan_same += 1
+    for text in a_meta.get("sanitizer_reports", []):
+        rep.violation("asan-report", text[-1500:], None)
 
 
 def _harness_ok(res):
@@ -658,16 +717,11 @@ def _harness_ok(res):
         raise runner.Inconclusive("driver reported a harness error: %s" % json.dumps(res)[:300])
 
 
-def judge(rep, tuples, calls, cases, spans, results, interner, variant):
-    per_fn = {}
-    undecided_fn = {}
-    named_pairs_fn = {}
-    forms = {}
-    origins = {}
-    decided_calls = 0
-    named_pairs = 0
+def judge(rep, acc, tuples, calls, cases, spans, results, interner, variant):
     expected_cache = {}
-    observed = {}  # call index -> ("v", value) | ("panic", p) | ("err", rec)
+    observed = {}  # call index -> ("v", value, null message) | ("panic", p) | ("err", rec)
+    acc.tuples += len(tuples)
+    acc.batches += len(cases)
     # ---- collect
     for (lo, cnt), res, case in zip(spans, results, cases):
         _harness_ok(res)
@@ -691,25 +745,22 @@ def judge(rep, tuples, calls, cases, spans, results, interner, variant):
     for ci, call in enumerate(calls):
         if ci in observed and call["form"] == "positional":
             positional_obs[call["t"]] = observed[ci]
-    sampled = set()
     for ci, call in enumerate(calls):
         if ci not in observed:
             continue
         ti = call["t"]
         fname, args, origin = tuples[ti]
         rep.count()
-        per_fn[fname] = per_fn.get(fname, 0) + 1
-        forms[call["form"]] = forms.get(call["form"], 0) + 1
-        origins[origin] = origins.get(origin, 0) + 1
+        acc.per_fn[fname] = acc.per_fn.get(fname, 0) + 1
+        acc.forms[call["form"]] = acc.forms.get(call["form"], 0) + 1
+        acc.origins[origin] = acc.origins.get(origin, 0) + 1
         obs = observed[ci]
-        scope = _scope_for(call, interner)
-        replay_case = {"op": "evalmany", "scope": scope, "texts": [call["text"]]}
         if obs[0] == "panic":
-            sig = "%s:fn=%s" % (panic_signature(obs[1]), fname)
-            rep.violation(sig, "panic in `%s` with %s: %s at %s" % (call["text"], _bindings(call, args), obs[1].get("msg"), obs[1].get("loc")), _replay(variant, replay_case, fname, args, call, "a value", obs[1]))
+            sig = "%s:fn=%s" % (panic_signature(_panic_class(obs[1])), fname)
+            rep.violation(sig, "panic in `%s` with %s: %s at %s" % (call["text"], _bindings(call, args), obs[1].get("msg"), obs[1].get("loc")), _replay(variant, _one(call, interner), fname, args, call, "a value", obs[1]))
             continue
         if obs[0] == "err":
-            rep.violation("no-value:%s:%s" % (fname, "+".join(sorted(k for k in obs[1].keys() if k != "i"))), "`%s` did not evaluate: %s" % (call["text"], json.dumps(obs[1])[:300]), _replay(variant, replay_case, fname, args, call, "a value", obs[1]))
+            rep.violation("no-value:%s:%s" % (fname, "+".join(sorted(k for k in obs[1].keys() if k != "i"))), "`%s` did not evaluate: %s" % (call["text"], json.dumps(obs[1])[:300]), _replay(variant, _one(call, interner), fname, args, call, "a value", obs[1]))
             continue
         value = obs[1]
         # -- expected
@@ -722,26 +773,30 @@ def judge(rep, tuples, calls, cases, spans, results, interner, variant):
         classes = classes_of(fname, args)
         if expected is UNDECIDED:
             rep.undecided += 1
-            undecided_fn[fname] = undecided_fn.get(fname, 0) + 1
+            acc.undecided_fn[fname] = acc.undecided_fn.get(fname, 0) + 1
         else:
-            decided_calls += 1
-            rep.seen((fname, classes))
-            if fname not in sampled and len(sampled) < 6 and origin in ("sweep", "grid", "list") and value is not None:
-                sampled.add(fname)
+            acc.decided_calls += 1
+            if expected is None:
+                acc.null_classes.add((fname, classes))
+            else:
+                rep.seen((fname, classes))
+            if fname not in acc.sampled and len(acc.sampled) < 6 and origin in ("sweep", "grid", "list") and value is not None:
+                acc.sampled.add(fname)
                 rep.sample({"text": call["text"], "bindings": _bindings(call, args), "reference": rbif.show(expected), "observed": rbif.show(value)})
         # -- metamorphic: named == positional
         if call["form"] in ("named", "named-literal", "named-spec-name"):
             pobs = positional_obs.get(ti)
             if pobs is not None and pobs[0] == "v":
-                named_pairs += 1
-                named_pairs_fn[fname] = named_pairs_fn.get(fname, 0) + 1
+                acc.named_pairs += 1
+                acc.named_pairs_fn[fname] = acc.named_pairs_fn.get(fname, 0) + 1
                 if not rbif.same_observation(pobs[1], value):
                     sig = named_signature(fname, args, call, pobs[1], value)
-                    ptext = "%s(%s)" % (fname, ", ".join(call["uses"])) if call["uses"] else calls[ci]["text"]
+                    ptext = "%s(%s)" % (fname, ", ".join(interner.name(a) for a in args))
+                    two = {"op": "evalmany", "scope": _scope_of(interner, [interner.name(a) for a in args]), "texts": [call["text"], ptext]}
                     rep.violation(
                         sig,
                         "named and positional invocation differ: `%s` gave %s but `%s` gave %s, with %s" % (call["text"], rbif.show(value), ptext, rbif.show(pobs[1]), _bindings(call, args)),
-                        _replay(variant, {"op": "evalmany", "scope": scope, "texts": [call["text"], ptext]}, fname, args, call, "the same value from both invocations", {"named": rbif.to_json(value), "positional": rbif.to_json(pobs[1])}),
+                        _replay(variant, two, fname, args, call, "the same value from both invocations", {"named": rbif.to_json(value), "positional": rbif.to_json(pobs[1])}),
                     )
                 continue  # the positional twin is the one compared with the reference
         # -- reference oracle
@@ -752,23 +807,23 @@ def judge(rep, tuples, calls, cases, spans, results, interner, variant):
             rep.violation(
                 sig,
                 "`%s` with %s gave %s; DMN 1.3 (R-BIF) gives %s%s" % (call["text"], _bindings(call, args), rbif.show(value), rbif.show(expected), (" [implementation says: %s]" % obs[2]) if len(obs) > 2 and obs[2] else ""),
-                _replay(variant, replay_case, fname, args, call, rbif.show(expected), rbif.to_json(value)),
+                _replay(variant, _one(call, interner), fname, args, call, rbif.show(expected), rbif.to_json(value)),
             )
-    rep.extra["calls_per_function"] = dict(sorted(per_fn.items()))
-    rep.extra["undecided_per_function"] = dict(sorted(undecided_fn.items()))
-    rep.extra["named_vs_positional_pairs"] = named_pairs
-    rep.extra["named_vs_positional_pairs_per_function"] = dict(sorted(named_pairs_fn.items()))
-    rep.extra["decided_calls"] = decided_calls
-    rep.extra["calls_by_form"] = dict(sorted(forms.items()))
-    rep.extra["calls_by_origin"] = dict(sorted(origins.items()))
-    rep.extra["argument_tuples"] = len(tuples)
-    rep.extra["functions"] = len(rbif.SPECS)
-    rep.extra["argument_classes_covered"] = len(rep.distinct)
-    rep.extra["batches"] = len(cases)
 
 
-def _scope_for(call, interner):
-    return [[[u, interner.values[int(u[1:])]] for u in sorted(set(call["uses"]), key=lambda s: int(s[1:]))]]
+def _scope_of(interner, names):
+    return [[[u, interner.values[int(u[1:])]] for u in sorted(set(names), key=lambda s: int(s[1:]))]]
+
+
+def _one(call, interner):
+    return {"op": "evalmany", "scope": _scope_of(interner, call["uses"]), "texts": [call["text"]]}
+
+
+def _panic_class(p):
+    """The panic record with operand-dependent payloads cut out of the message."""
+    q = dict(p)
+    q["msg"] = re.sub(r"NulError\(.*$", "NulError", str(q.get("msg", "")))
+    return q
 
 
 def _bindings(call, args):
